@@ -62,6 +62,11 @@ impl Write for Scripted {
             }
         }
     }
+    /// a gathering write: one scripted answer for the concatenation of the buffers
+    fn write_vectored(&mut self, bufs: &[IoSlice<'_>]) -> io::Result<usize> {
+        let all: Vec<u8> = bufs.iter().flat_map(|b| b.iter().copied()).collect();
+        self.write(&all)
+    }
     fn flush(&mut self) -> io::Result<()> {
         self.0.borrow_mut().flushes += 1;
         Ok(())
